@@ -176,10 +176,12 @@ def polyEval (coeffs : List Int) (x : Int) : Int :=
 def symMod (a n : Int) : Int :=
   if Int.fmod a n ≤ Int.fdiv n 2 then Int.fmod a n else Int.fmod a n - n
 
-/-- `if y != 0 and n % y == 0` -/
+/-- HISTORICAL (pre-fix guard, before 02ff5e0; /repo HEAD ships `guardAcceptR`):
+`if y != 0 and n % y == 0` -/
 def guardAccept (n y : Int) : Bool := y ≠ 0 && Int.fmod n y == 0
 
-/-- final guard of `univariate_modp`: `y = f(rx); if y != 0 and n % y == 0: return rx`. -/
+/-- HISTORICAL (pre-fix, before 02ff5e0; shipped: `guardUniR`): final guard of
+`univariate_modp`: `y = f(rx); if y != 0 and n % y == 0: return rx`. -/
 def guardUni (coeffs : List Int) (n rx : Int) : Option Int :=
   if guardAccept n (symMod (polyEval coeffs rx) n) then some rx else none
 
@@ -209,7 +211,8 @@ def guardMulti (f : List Mono) (n : Int) (roots : List Int) : Option (List Int) 
 def guardModn (f : List Mono) (n : Int) (roots : List Int) : Option (List Int) :=
   if Int.fmod (symMod (mpolyEval f roots) n) n = 0 then some roots else none
 
-/-! ### repaired guard (fixes/small-roots-unit-guard.diff): `abs(y) > 1 and n % y == 0` -/
+/-! ### SHIPPED guard (/repo HEAD since fix 02ff5e0 = fixes/small-roots-unit-guard.diff):
+`abs(y) > 1 and n % y == 0` -/
 
 def guardAcceptR (n y : Int) : Bool := decide (1 < y.natAbs) && Int.fmod n y == 0
 
